@@ -61,15 +61,7 @@ func (p *printer) stmt(stmt ast.Stmt, nextIsRBrace bool) {
 			p.print(d.Pos(), "BadDecl")
 
 		case *ast.GenDecl:
-			p.setComment(d.Doc)
-			assert(len(d.Specs) == 1)
-			if s, ok := d.Specs[0].(*ast.ValueSpec); ok {
-				assert(d.Tok == token.VAR)
-				p.print(d.Pos(), token.Zh_设定, token.K_点)
-				p.spec_ValueSpec(s, 1, true)
-			} else {
-				panic("unreachable")
-			}
+			p.localGenDecl(d)
 
 		case *ast.FuncDecl:
 			panic("unreachable")
@@ -255,4 +247,37 @@ func isTypeName(x ast.Expr) bool {
 		return isTypeName(t.X)
 	}
 	return false
+}
+
+// localGenDecl prints a declaration statement: 设定 / 常量, single or grouped (`设定: ... 完毕`).
+func (p *printer) localGenDecl(d *ast.GenDecl) {
+	p.setComment(d.Doc)
+	kw := token.Zh_设定
+	if d.Tok == token.CONST || d.Tok == token.Zh_常量 {
+		kw = token.Zh_常量
+	}
+	if d.Lparen.IsValid() {
+		p.print(d.Pos(), kw, d.Lparen, token.COLON)
+		if len(d.Specs) > 0 {
+			p.print(indent, formfeed)
+			var line int
+			for i, s := range d.Specs {
+				if i > 0 {
+					p.linebreak(p.lineFor(s.Pos()), 1, ignore, p.linesFrom(line) > 0)
+				}
+				p.recordLine(&line)
+				p.spec_ValueSpec(s.(*ast.ValueSpec), 1, false)
+			}
+			p.print(unindent, formfeed)
+		}
+		p.print(d.Rparen, token.Zh_完毕)
+		return
+	}
+	assert(len(d.Specs) == 1)
+	s, ok := d.Specs[0].(*ast.ValueSpec)
+	if !ok {
+		panic("unreachable")
+	}
+	p.print(d.Pos(), kw, token.K_点)
+	p.spec_ValueSpec(s, 1, true)
 }
